@@ -3,6 +3,7 @@ C06 — Lean-checked witnesses: where the full statements stop being true.
 -/
 import NV.C06.Invariant
 import NV.C06.Counters
+import NV.C06.Drive
 
 namespace NV.C06
 
@@ -67,5 +68,12 @@ theorem object_cycle_cut_by_destruct :
                       .dest 0, .cleanup, .drop 0] = .ok s ∧
       s.stats.numArrays = 0 ∧ s.stats.numMappings = 0 ∧ s.stats.objects = 0 := by
   refine ⟨_, rfl, ?_, ?_, ?_⟩ <;> decide
+
+/-- **prog_wrap_uaf** (open known finding `program-ref-wrap`): `program_t.ref` has `progRefBits` bits and no overflow
+    handling.  The blueprint (1) plus 2^PW clones wrap it back to 1; the first free_prog (one clone destructed)
+    deallocates the program although 2^PW holders remain, and the next free_prog touches freed memory. -/
+theorem prog_wrap_uaf :
+    (pInc {} (2 ^ PW)).pref = 1 ∧ (pDec (pInc {} (2 ^ PW)) 1).map (·.pfreed) = some true ∧
+    (pDec (pInc {} (2 ^ PW)) 2).isNone = true := by decide
 
 end NV.C06
